@@ -13,7 +13,12 @@ from mirsym.tys import *
 from .vmabs import VmWorld, AbsObj, AbsGc, AbsUVec, AbsArr, install_gc_refs, OBJ_TYPES
 from .c01 import ValView
 
-MAXN = 2      # elements per container
+MAXN = 2      # elements per container (3 in the thorough tier, set by _tier)
+
+
+def _tier(tier):
+    global MAXN
+    MAXN = 2 if tier == 'quick' else 3
 
 
 class TraceWorld:
@@ -196,6 +201,7 @@ def _trace_fn(P, ty):
 def _mk(suffix, prog, ty, skip):
     @obligation('C05.K1.trace_' + suffix, 'C05', programs=(prog,))
     def ob(res, tier):
+        _tier(tier)
         W = TraceWorld(prog)
         e, P = W.e, W.P
         f = _trace_fn(P, ty)
@@ -246,6 +252,7 @@ def roots_vm(res, tier):
             'inline_cache': 'weak by design: entries are validated against the receiver class on every use (C13.K1); the address-reuse clause of C13 is out of reach',
             'gc': 'the allocator itself', 'io': 'no managed references', 'files': None}
     skip = {k: v for k, v in skip.items() if v}
+    _tier(tier)
     W = TraceWorld('vm')
     e, P = W.e, W.P
     c = P._method_cands('vm::Vm', 'TraceRoot', 'trace')
@@ -316,6 +323,7 @@ def trace_sweep(res, tier):
     """the same completeness obligation for every other hand-written `impl Trace for T` found in the sources of the three crates
     (iterator states of the standard library, builtin tables, signatures, builders, source files): types whose values cannot be
     encoded are listed as outside, the rest must trace every managed reference they hold"""
+    _tier(tier)
     W0 = TraceWorld('vm')
     P = W0.P
     impls = [(rel, line, nm) for rel, line, nm in _all_trace_impls(P) if nm not in DEDICATED and nm not in LEAF_HANDLES and nm not in SWEEP_EXCLUDE and not rel.endswith('instance/header.rs')]
